@@ -214,3 +214,12 @@ Example C07_nv_parse_f32 :
   parse_f32 (Fin (3 # 2)) = Some (Fin (3 # 2)) /\ parse_f32 (Fin (inject_Z (10 ^ 40))) = None /\
   parse_f32 (Inf true) = None /\ parse_f32 NaN = None.
 Proof. exact parse_f32_accepts. Qed.
+
+(* ---------------------------------------------------------------- clip-path mode since 5d8487d (third pass): nested groups at any depth are
+   entered (Model/Writer.v write_clipkids); C07_refs_closed / C07_refs_closed_from_C05 / C07_prefix_uniform / C07_xlink_declared above are
+   proved over it (Proofs/Writer.v clip_content_all, allp_clip_content, xl_clip_content: mutual induction, any depth).
+   What the both-clip skip costs: a path under two clipped levels is not written at all *)
+Example C07_double_clip_child_dropped : forall o,
+  write_clipkids o (G 0 false None None [] [NGroup (G 0 false (Some (CD 2 12 None leaf7)) None [] [NPath 5 true PColor PNone])]) (Some 11) = [] /\
+  write_clipkids o (G 0 false None None [] [NGroup (G 0 false (Some (CD 2 12 None leaf7)) None [] [NPath 5 true PColor PNone])]) None <> [].
+Proof. intro o. split; [reflexivity|discriminate]. Qed.
